@@ -16,6 +16,23 @@ From Coq Require Import String Lia.
 Open Scope N_scope.
 Open Scope list_scope.
 
+Section WithBlacklist.
+Variable bl : cmd -> arg -> list bytes.
+Local Notation arg_conflicts := (ZshModel.arg_conflicts bl).
+Local Notation opt_short_line := (ZshModel.opt_short_line bl).
+Local Notation opt_long_line := (ZshModel.opt_long_line bl).
+Local Notation opt_lines := (ZshModel.opt_lines bl).
+Local Notation write_opts_of := (ZshModel.write_opts_of bl).
+Local Notation zflag_line := (ZshModel.zflag_line bl).
+Local Notation flag_lines := (ZshModel.flag_lines bl).
+Local Notation write_flags_of := (ZshModel.write_flags_of bl).
+Local Notation get_args_of := (ZshModel.get_args_of bl).
+Local Notation get_subcommands_of := (ZshModel.get_subcommands_of bl).
+Local Notation zsh_pieces := (ZshModel.zsh_pieces bl).
+Local Notation zsh_script := (ZshModel.zsh_script bl).
+Local Notation generate_zsh := (ZshModel.generate_zsh bl).
+Local Notation args_block := (ZshProofs.args_block bl).
+
 (** ---- the lexer threaded through the pieces ---- *)
 Fixpoint zrun (st : zstate) (l : list zpiece) : option zstate :=
   match l with
@@ -149,17 +166,17 @@ Proof. reflexivity. Qed.
 
 Lemma opt_lines_erase c g a ad : opt_lines c g (a, erase_adesc ad) = map (map zperase) (opt_lines c g (a, ad)).
 Proof.
-  unfold opt_lines. cbn [fst]. rewrite map_app. f_equal.
+  unfold ZshModel.opt_lines. cbn [fst]. rewrite map_app. f_equal.
   - destruct (get_short_and_visible_aliases a); [|reflexivity]. rewrite map_map. apply map_ext. intros s.
-    unfold opt_short_line. cbn [fst snd]. rewrite !map_app. cbn [map zperase].
+    unfold ZshModel.opt_short_line. cbn [fst snd]. rewrite !map_app. cbn [map zperase].
     rewrite ad_help_erase, text_or_default_erase, opt_vc_erase. reflexivity.
   - destruct (get_long_and_visible_aliases a); [|reflexivity]. rewrite map_map. apply map_ext. intros s.
-    unfold opt_long_line. cbn [fst snd]. rewrite !map_app. cbn [map zperase].
+    unfold ZshModel.opt_long_line. cbn [fst snd]. rewrite !map_app. cbn [map zperase].
     rewrite ad_help_erase, text_or_default_erase, opt_vc_erase. reflexivity.
 Qed.
 
 Lemma zflag_line_erase c g a ad x y : zflag_line c g (a, erase_adesc ad) x y = map zperase (zflag_line c g (a, ad) x y).
-Proof. unfold zflag_line. cbn [fst snd map zperase]. rewrite ad_help_erase, text_or_default_erase. reflexivity. Qed.
+Proof. unfold ZshModel.zflag_line. cbn [fst snd map zperase]. rewrite ad_help_erase, text_or_default_erase. reflexivity. Qed.
 
 Lemma flag_lines_erase c g a ad : flag_lines c g (a, erase_adesc ad) = map (map zperase) (flag_lines c g (a, ad)).
 Proof.
@@ -197,14 +214,14 @@ Proof. rewrite erase_desc_subs. apply (zipd_map erase_desc cd0 (c_subs c) erase_
 
 Lemma write_opts_of_erase c d g : write_opts_of c (erase_desc d) g = map zperase (write_opts_of c d g).
 Proof.
-  unfold write_opts_of. rewrite zipd_args_erase, zjoin_erase, znl_erase. f_equal.
+  unfold ZshModel.write_opts_of. rewrite zipd_args_erase, zjoin_erase, znl_erase. f_equal.
   unfold is_opt. rewrite (filter_map_fst (fun a => a_takes_values a && negb (a_is_positional a)) erase_adesc).
   rewrite flat_map_map, map_flat_map. apply flat_map_ext. intros [a ad]. apply opt_lines_erase.
 Qed.
 
 Lemma write_flags_of_erase c d g : write_flags_of c (erase_desc d) g = map zperase (write_flags_of c d g).
 Proof.
-  unfold write_flags_of. rewrite zipd_args_erase, zjoin_erase, znl_erase. f_equal.
+  unfold ZshModel.write_flags_of. rewrite zipd_args_erase, zjoin_erase, znl_erase. f_equal.
   unfold is_flag. rewrite (filter_map_fst (fun a => negb (a_takes_values a) && negb (a_is_positional a)) erase_adesc).
   rewrite flat_map_map, map_flat_map. apply flat_map_ext. intros [a ad]. apply flag_lines_erase.
 Qed.
@@ -217,7 +234,7 @@ Qed.
 
 Lemma get_args_of_erase c d g : get_args_of c (erase_desc d) g = option_map' (map zperase) (get_args_of c d g).
 Proof.
-  unfold get_args_of. rewrite write_opts_of_erase, write_flags_of_erase, write_positionals_of_erase, !is_nil_map.
+  unfold ZshModel.get_args_of. rewrite write_opts_of_erase, write_flags_of_erase, write_positionals_of_erase, !is_nil_map.
   assert (E : forall tl : list (list zpiece), map (map zperase) tl = tl ->
     zjoin znl (([args_header]
                  ++ (if negb (is_nil (write_opts_of c d g)) then [map zperase (write_opts_of c d g)] else [])
@@ -267,7 +284,7 @@ Qed.
 Lemma get_subcommands_of_erase : forall f p d,
   get_subcommands_of f p (erase_desc d) = option_map' (map zperase) (get_subcommands_of f p d).
 Proof.
-  induction f as [|f IH]; intros p d; cbn [get_subcommands_of]; destruct (negb (has_subcommands p)); try reflexivity.
+  induction f as [|f IH]; intros p d; cbn [ZshModel.get_subcommands_of]; destruct (negb (has_subcommands p)); try reflexivity.
   destruct (subcommands p) as [names|]; [|reflexivity].
   match goal with |- match map_opt ?F names with _ => _ end = option_map' _ (match map_opt ?G names with _ => _ end) =>
     assert (E : map_opt F names = option_map' (map (map zperase)) (map_opt G names)) end.
@@ -316,7 +333,7 @@ Qed.
 
 Theorem zsh_pieces_erase c d : zsh_pieces c (erase_desc d) = option_map' (map zperase) (zsh_pieces c d).
 Proof.
-  unfold zsh_pieces. destruct (c_bin c) as [name|]; [|reflexivity].
+  unfold ZshModel.zsh_pieces. destruct (c_bin c) as [name|]; [|reflexivity].
   rewrite get_args_of_erase, get_subcommands_of_erase, zsubcommand_details_erase.
   destruct (get_args_of c d None); cbn [option_map']; [|reflexivity].
   destruct (get_subcommands_of (depth c) c d); cbn [option_map']; [|reflexivity].
@@ -554,8 +571,6 @@ Proof.
 Qed.
 
 (** ---- spec lines: from between words to the backslash at the end of the line ---- *)
-Lemma arg_conflicts_nil c a g : arg_conflicts c a g = [].
-Proof. unfold arg_conflicts, get_arg_conflicts_with, arg_blacklist. destruct g, (a_global a); reflexivity. Qed.
 
 Lemma pres_multiple a : pres is_sq is_sq (multiple_of a).
 Proof. unfold multiple_of. destruct (a_action a); lit_pres. Qed.
@@ -566,12 +581,13 @@ Lemma pres_close_line : pres is_sq is_bs (lit "' \").
 Proof. lit_pres. Qed.
 
 Lemma run_opt_short_line c g p s :
+  tame (arg_conflicts c (fst p) g) = true ->
   tame_arg (fst p) = true -> tame s = true -> run_to zbare is_bs (opt_short_line c g p s).
 Proof.
-  intros Ht Hs. unfold opt_short_line. rewrite arg_conflicts_nil.
+  intros Hcf Ht Hs. unfold ZshModel.opt_short_line.
   apply (run_to_cons_zx zbare is_sq).
   { apply (pres_app zbare is_sq is_sq [39]); [apply pres_open_sq|].
-    apply (pres_app is_sq is_sq is_sq []); [apply pres_nil|].
+    apply (pres_app is_sq is_sq is_sq (arg_conflicts c (fst p) g)); [apply pres_tame_sq; exact Hcf|].
     apply (pres_app is_sq is_sq is_sq (multiple_of (fst p))); [apply pres_multiple|].
     apply (pres_app is_sq is_sq is_sq [45]); [lit_pres|].
     apply (pres_app is_sq is_sq is_sq s); [apply pres_tame_sq; exact Hs|lit_pres]. }
@@ -579,34 +595,37 @@ Proof.
   apply (run_to_app is_sq is_sq is_bs); [apply run_opt_vc; exact Ht|]. apply run_to_zx, pres_close_line.
 Qed.
 Lemma run_opt_long_line c g p s :
+  tame (arg_conflicts c (fst p) g) = true ->
   tame_arg (fst p) = true -> tame s = true -> run_to zbare is_bs (opt_long_line c g p s).
 Proof.
-  intros Ht Hs. unfold opt_long_line. rewrite arg_conflicts_nil.
+  intros Hcf Ht Hs. unfold ZshModel.opt_long_line.
   apply (run_to_cons_zx zbare is_sq).
   { apply (pres_app zbare is_sq is_sq [39]); [apply pres_open_sq|].
-    apply (pres_app is_sq is_sq is_sq []); [apply pres_nil|].
+    apply (pres_app is_sq is_sq is_sq (arg_conflicts c (fst p) g)); [apply pres_tame_sq; exact Hcf|].
     apply (pres_app is_sq is_sq is_sq (multiple_of (fst p))); [apply pres_multiple|].
     apply (pres_app is_sq is_sq is_sq [45; 45]); [lit_pres|].
     apply (pres_app is_sq is_sq is_sq s); [apply pres_tame_sq; exact Hs|lit_pres]. }
   apply run_to_cons_zh. apply (run_to_cons_zx is_sq is_sq); [lit_pres|].
   apply (run_to_app is_sq is_sq is_bs); [apply run_opt_vc; exact Ht|]. apply run_to_zx, pres_close_line.
 Qed.
-Lemma run_opt_lines c g p line : tame_arg (fst p) = true -> In line (opt_lines c g p) -> run_to zbare is_bs line.
+Lemma run_opt_lines c g p line :
+  tame (arg_conflicts c (fst p) g) = true -> tame_arg (fst p) = true -> In line (opt_lines c g p) -> run_to zbare is_bs line.
 Proof.
-  intros Ht Hl. unfold opt_lines in Hl. apply in_app_or in Hl. destruct Hl as [Hl|Hl].
+  intros Hcf Ht Hl. unfold ZshModel.opt_lines in Hl. apply in_app_or in Hl. destruct Hl as [Hl|Hl].
   - destruct (get_short_and_visible_aliases (fst p)) as [ss|] eqn:E; [|destruct Hl]. apply in_map_iff in Hl.
-    destruct Hl as (s & <- & Hs). apply run_opt_short_line; [exact Ht|]. eapply tame_shorts; eassumption.
+    destruct Hl as (s & <- & Hs). apply run_opt_short_line; [exact Hcf|exact Ht|]. eapply tame_shorts; eassumption.
   - destruct (get_long_and_visible_aliases (fst p)) as [ss|] eqn:E; [|destruct Hl]. apply in_map_iff in Hl.
-    destruct Hl as (s & <- & Hs). apply run_opt_long_line; [exact Ht|]. eapply tame_longs; eassumption.
+    destruct Hl as (s & <- & Hs). apply run_opt_long_line; [exact Hcf|exact Ht|]. eapply tame_longs; eassumption.
 Qed.
 
 Lemma run_zflag_line c g p dashes name :
+  tame (arg_conflicts c (fst p) g) = true ->
   tame dashes = true -> tame name = true -> run_to zbare is_bs (zflag_line c g p dashes name).
 Proof.
-  intros Hd Hn. unfold zflag_line. rewrite arg_conflicts_nil.
+  intros Hcf Hd Hn. unfold ZshModel.zflag_line.
   apply (run_to_cons_zx zbare is_sq).
   { apply (pres_app zbare is_sq is_sq [39]); [apply pres_open_sq|].
-    apply (pres_app is_sq is_sq is_sq []); [apply pres_nil|].
+    apply (pres_app is_sq is_sq is_sq (arg_conflicts c (fst p) g)); [apply pres_tame_sq; exact Hcf|].
     apply (pres_app is_sq is_sq is_sq (multiple_of (fst p))); [apply pres_multiple|].
     apply (pres_app is_sq is_sq is_sq dashes); [apply pres_tame_sq; exact Hd|].
     apply (pres_app is_sq is_sq is_sq name); [apply pres_tame_sq; exact Hn|lit_pres]. }
@@ -627,9 +646,10 @@ Proof.
     exact (tame_visible _ _ Hal Hy).
 Qed.
 
-Lemma run_flag_lines c g p line : tame_arg (fst p) = true -> In line (flag_lines c g p) -> run_to zbare is_bs line.
+Lemma run_flag_lines c g p line :
+  tame (arg_conflicts c (fst p) g) = true -> tame_arg (fst p) = true -> In line (flag_lines c g p) -> run_to zbare is_bs line.
 Proof.
-  intros Ht Hl. rewrite flag_lines_spellings in Hl. apply in_map_iff in Hl. destruct Hl as (x & <- & Hx).
+  intros Hcf Ht Hl. rewrite flag_lines_spellings in Hl. apply in_map_iff in Hl. destruct Hl as (x & <- & Hx).
   destruct (tame_flag_spellings _ _ Ht Hx) as [H1 H2]. apply run_zflag_line; assumption.
 Qed.
 
@@ -703,6 +723,54 @@ Qed.
 Lemma ztame_arg_tame a : ztame_arg a = true -> tame_arg a = true.
 Proof. unfold ztame_arg. intros H. apply andb_true_iff in H. tauto. Qed.
 
+(** the exclusion list [(-x --exclude ...)] of an argument: spellings of arguments of the command written, of the parent
+    or (global arguments) of subcommands of the parent -- tame when those commands are *)
+Definition gtame (g : option cmd) : Prop := forall x, g = Some x -> ztame_cmd x = true.
+Lemma subcommands_containing_desc : forall c id m, In m (subcommands_containing c id) -> desc c m.
+Proof.
+  induction c as [n al args subs bin h v s g IH] using cmd_ind'. intros id m Hin. cbn [subcommands_containing] in Hin.
+  apply in_flat_map in Hin. destruct Hin as (x & Hx & Hm). rewrite Forall_forall in IH.
+  destruct (existsb _ _); [|destruct Hm]. destruct Hm as [<-|Hm]; [apply desc_child; exact Hx|].
+  eapply desc_step; [exact Hx|]. eapply IH; eassumption.
+Qed.
+Lemma conflicts_tame x blk a y : ztame_cmd x = true -> In y (get_arg_conflicts_with x blk a) -> ztame_arg y = true.
+Proof.
+  intros Ht Hin. unfold get_arg_conflicts_with in Hin.
+  assert (Hargs : forall m, (m = x \/ desc x m) -> forall z, In z (c_args m) -> ztame_arg z = true).
+  { intros m Hm z Hz. assert (Htm : ztame_cmd m = true) by (destruct Hm as [->|Hd]; [exact Ht|eapply ztame_desc; eassumption]).
+    destruct (ztame_cmd_parts m Htm) as (_ & _ & Ha & _). apply (forallb_in _ _ _ Ha Hz). }
+  destruct (a_global a); apply filter_map_in in Hin; destruct Hin as (id & _ & Hf).
+  - apply find_some in Hf. destruct Hf as [Hf _]. apply in_app_or in Hf. destruct Hf as [Hf|Hf].
+    + apply (Hargs x (or_introl eq_refl) y Hf).
+    + apply in_flat_map in Hf. destruct Hf as (m & Hm & Hy). apply (Hargs m (or_intror (subcommands_containing_desc _ _ _ Hm)) y Hy).
+  - unfold find_arg in Hf. apply find_some in Hf. destruct Hf as [Hf _]. apply (Hargs x (or_introl eq_refl) y Hf).
+Qed.
+Lemma tame_push_conflicts l : (forall y, In y l -> ztame_arg y = true) -> forall w, In w (push_conflicts l) -> tame w = true.
+Proof.
+  intros H w Hw. unfold push_conflicts in Hw. apply in_flat_map in Hw. destruct Hw as (y & Hy & Hw).
+  destruct (tame_arg_parts y (ztame_arg_tame y (H y Hy))) as (Hsh & Hlg & _).
+  apply in_app_or in Hw. destruct Hw as [Hw|Hw].
+  - destruct (a_short y) as [sh|]; [|destruct Hw]. destruct Hw as [<-|[]]. rewrite tame_app. cbn [tame_opt] in Hsh. rewrite Hsh. reflexivity.
+  - destruct (a_long y) as [lg|]; [|destruct Hw]. destruct Hw as [<-|[]]. rewrite tame_app. cbn [tame_opt] in Hlg. rewrite Hlg. reflexivity.
+Qed.
+Lemma tame_intercalate' l : (forall x, In x l -> tame x = true) -> tame (intercalate (lit " ") l) = true.
+Proof.
+  induction l as [|x t IH]; intros H; [reflexivity|]. cbn [intercalate].
+  destruct t as [|y t']; [apply H; left; reflexivity|].
+  rewrite !tame_app, (H x (or_introl eq_refl)), IH; [reflexivity|]. intros z Hz. apply H. right. exact Hz.
+Qed.
+Lemma tame_arg_conflicts c a g : ztame_cmd c = true -> gtame g -> tame (arg_conflicts c a g) = true.
+Proof.
+  intros Ht Hg. unfold ZshModel.arg_conflicts.
+  set (conflicts := match g with Some x => if a_global a then _ else _ | None => _ end).
+  assert (Hc : forall y, In y conflicts -> ztame_arg y = true).
+  { intros y Hy. unfold conflicts in Hy. destruct g as [x|].
+    - destruct (a_global a) eqn:Eg; [eapply (conflicts_tame x); [apply Hg; reflexivity|exact Hy]|eapply (conflicts_tame c); [exact Ht|exact Hy]].
+    - eapply (conflicts_tame c); [exact Ht|exact Hy]. }
+  clearbody conflicts. destruct (is_nil conflicts); [reflexivity|].
+  rewrite !tame_app, (tame_intercalate' _ (tame_push_conflicts conflicts Hc)). reflexivity.
+Qed.
+
 Lemma Some_inj {A} (a b : A) : Some a = Some b -> a = b.
 Proof. intros H. inversion H. reflexivity. Qed.
 
@@ -713,17 +781,17 @@ Proof. apply run_to_weaken; [intros st H; exact H|apply is_bs_zbb]. Qed.
 Lemma zjoin_lines l : (forall x, In x l -> run_to zbare is_bs x) -> zjoin znl l <> [] -> run_to zbare zbb (zjoin znl l).
 Proof. intros H _. apply zjoin_run. intros x Hx. apply is_bs_zbb', H, Hx. Qed.
 
-Lemma run_write_opts_of c d g : ztame_cmd c = true -> run_to zbare zbb (write_opts_of c d g).
+Lemma run_write_opts_of c d g : ztame_cmd c = true -> gtame g -> run_to zbare zbb (write_opts_of c d g).
 Proof.
-  intros Ht. unfold write_opts_of. apply zjoin_run. intros x Hx. apply is_bs_zbb'.
+  intros Ht Hg. unfold ZshModel.write_opts_of. apply zjoin_run. intros x Hx. apply is_bs_zbb'.
   apply in_flat_map in Hx. destruct Hx as (p & Hp & Hx). apply filter_In in Hp.
-  eapply run_opt_lines; [|exact Hx]. apply ztame_arg_tame. eapply ztame_args; [exact Ht|exact (proj1 Hp)].
+  apply (run_opt_lines c g p x); [apply tame_arg_conflicts; assumption| |exact Hx]. apply ztame_arg_tame. eapply ztame_args; [exact Ht|exact (proj1 Hp)].
 Qed.
-Lemma run_write_flags_of c d g : ztame_cmd c = true -> run_to zbare zbb (write_flags_of c d g).
+Lemma run_write_flags_of c d g : ztame_cmd c = true -> gtame g -> run_to zbare zbb (write_flags_of c d g).
 Proof.
-  intros Ht. unfold write_flags_of. apply zjoin_run. intros x Hx. apply is_bs_zbb'.
+  intros Ht Hg. unfold ZshModel.write_flags_of. apply zjoin_run. intros x Hx. apply is_bs_zbb'.
   apply in_flat_map in Hx. destruct Hx as (p & Hp & Hx). apply filter_In in Hp.
-  eapply run_flag_lines; [|exact Hx]. apply ztame_arg_tame. eapply ztame_args; [exact Ht|exact (proj1 Hp)].
+  apply (run_flag_lines c g p x); [apply tame_arg_conflicts; assumption| |exact Hx]. apply ztame_arg_tame. eapply ztame_args; [exact Ht|exact (proj1 Hp)].
 Qed.
 Lemma run_write_positionals_of c d : ztame_cmd c = true -> run_to zbare zbb (write_positionals_of c d).
 Proof.
@@ -737,9 +805,9 @@ Proof. lit_pres. Qed.
 Lemma pres_ret : pres zbare zbare (lit "&& ret=0").
 Proof. lit_pres. Qed.
 
-Lemma run_get_args_of c d g blk : ztame_cmd c = true -> get_args_of c d g = Some blk -> run_to zbare zbare blk.
+Lemma run_get_args_of c d g blk : ztame_cmd c = true -> gtame g -> get_args_of c d g = Some blk -> run_to zbare zbare blk.
 Proof.
-  intros Ht. unfold get_args_of.
+  intros Ht Hg. unfold ZshModel.get_args_of.
   set (A := if negb (is_nil (write_opts_of c d g)) then [write_opts_of c d g] else []).
   set (B := if negb (is_nil (write_flags_of c d g)) then [write_flags_of c d g] else []).
   set (C := if negb (is_nil (write_positionals_of c d)) then [write_positionals_of c d] else []).
@@ -747,10 +815,10 @@ Proof.
   { intros x Hx. apply in_app_or in Hx. destruct Hx as [[<-|[]]|Hx]; [apply run_to_zx, pres_header|].
     apply in_app_or in Hx. destruct Hx as [Hx|Hx].
     { unfold A in Hx. destruct (negb (is_nil (write_opts_of c d g))); [|destruct Hx]. destruct Hx as [<-|[]].
-      apply run_write_opts_of; exact Ht. }
+      apply run_write_opts_of; assumption. }
     apply in_app_or in Hx. destruct Hx as [Hx|Hx].
     { unfold B in Hx. destruct (negb (is_nil (write_flags_of c d g))); [|destruct Hx]. destruct Hx as [<-|[]].
-      apply run_write_flags_of; exact Ht. }
+      apply run_write_flags_of; assumption. }
     unfold C in Hx. destruct (negb (is_nil (write_positionals_of c d))); [|destruct Hx]. destruct Hx as [<-|[]].
     apply run_write_positionals_of; exact Ht. }
   destruct (has_subcommands c).
@@ -822,7 +890,7 @@ Qed.
 Lemma run_get_subcommands_of : forall f p d r,
   ztame_cmd p = true -> get_subcommands_of f p d = Some r -> run_to zbare zbare r.
 Proof.
-  induction f as [|f IH]; intros p d r Ht; cbn [get_subcommands_of]; destruct (negb (has_subcommands p));
+  induction f as [|f IH]; intros p d r Ht; cbn [ZshModel.get_subcommands_of]; destruct (negb (has_subcommands p));
     try (intros E; apply Some_inj in E; subst r; apply run_to_nil); [discriminate|].
   destruct (subcommands p) as [names|] eqn:En; [|discriminate].
   match goal with |- match map_opt ?F names with _ => _ end = _ -> _ => destruct (map_opt F names) as [arms|] eqn:Er; [|discriminate] end.
@@ -840,7 +908,7 @@ Proof.
   apply Some_inj in Hf. subst y. apply zjoin_run_bare. intros x Hx.
   apply in_app_or in Hx. destruct Hx as [[<-|[]]|Hx]; [apply run_label; exact Htw|].
   apply in_app_or in Hx. destruct Hx as [Hx|Hx].
-  { destruct (negb (is_nil sa)); [|destruct Hx]. destruct Hx as [<-|[]]. eapply run_get_args_of; eassumption. }
+  { destruct (negb (is_nil sa)); [|destruct Hx]. destruct Hx as [<-|[]]. apply (run_get_args_of m md (Some p) sa Htm); [intros x0 Ex; congruence|exact Ea]. }
   apply in_app_or in Hx. destruct Hx as [Hx|Hx].
   { destruct (negb (is_nil ch)); [|destruct Hx]. destruct Hx as [<-|[]]. eapply IH; eassumption. }
   destruct Hx as [<-|[]]. apply run_to_zx. lit_pres.
@@ -950,7 +1018,7 @@ Qed.
 Theorem zsh_file_runs c d ps :
   ztame_cmd c = true -> zsh_pieces c d = Some ps -> exists st, zrun ZB ps = Some st /\ zbare st = true.
 Proof.
-  intros Ht. unfold zsh_pieces. destruct (c_bin c) as [name|] eqn:Eb; [|discriminate].
+  intros Ht. unfold ZshModel.zsh_pieces. destruct (c_bin c) as [name|] eqn:Eb; [|discriminate].
   destruct (get_args_of c d None) as [ia|] eqn:Ea; [|discriminate].
   destruct (get_subcommands_of (depth c) c d) as [sc|] eqn:Es; [|discriminate].
   destruct (zsubcommand_details c d) as [de|] eqn:Ed; [|discriminate].
@@ -979,7 +1047,7 @@ Proof.
                         lit "    compdef _" ++ name ++ lit " " ++ name ++ lf ++
                         lit "fi" ++ lf)])).
   { apply (run_to_app zbare zbare zbare); [apply run_to_zx, run_script_head; exact Hn|].
-    apply (run_to_app zbare zbare zbare); [eapply run_get_args_of; eassumption|].
+    apply (run_to_app zbare zbare zbare); [apply (run_get_args_of c d None ia Ht); [intros x0 Ex; discriminate Ex|exact Ea]|].
     apply (run_to_app zbare zbare zbare); [eapply run_get_subcommands_of; eassumption|].
     apply (run_to_app zbare zbare zbare); [apply run_to_zx; lit_pres|].
     apply (run_to_app zbare zbare zbare); [eapply run_zsubcommand_details; eassumption|].
@@ -999,7 +1067,7 @@ Theorem zsh_texts_literal c d :
 Proof.
   intros Ht ps Hp. destruct (zsh_file_runs c d ps Ht Hp) as (st & R & B).
   destruct (zrun_events ps ZB st R) as (F & S & L).
-  unfold zsh_script. rewrite Hp. eexists; split; [reflexivity|]. rewrite F. auto.
+  unfold ZshModel.zsh_script. rewrite Hp. eexists; split; [reflexivity|]. rewrite F. auto.
 Qed.
 
 (** the token skeleton (and the final lexer state) of the ENTIRE generated file is the same for any two
@@ -1010,14 +1078,14 @@ Theorem zsh_text_invariance c d1 d2 s1 :
     skeleton (events sh_step ZB s1) = skeleton (events sh_step ZB s2) /\
     final sh_step ZB s1 = final sh_step ZB s2.
 Proof.
-  intros Ht He H1. unfold zsh_script in H1. destruct (zsh_pieces c d1) as [p1|] eqn:E1; [|discriminate].
+  intros Ht He H1. unfold ZshModel.zsh_script in H1. destruct (zsh_pieces c d1) as [p1|] eqn:E1; [|discriminate].
   apply Some_inj in H1. subst s1.
   pose proof (zsh_pieces_erase c d1) as X1. pose proof (zsh_pieces_erase c d2) as X2.
   rewrite He, E1 in X1. rewrite X1 in X2. destruct (zsh_pieces c d2) as [p2|] eqn:E2; [|discriminate].
   cbn [option_map'] in X2. apply Some_inj in X2.
   destruct (zsh_file_runs c d1 p1 Ht E1) as (st1 & R1 & _). destruct (zsh_file_runs c d2 p2 Ht E2) as (st2 & R2 & _).
   destruct (zrun_events p1 ZB st1 R1) as (F1 & S1 & _). destruct (zrun_events p2 ZB st2 R2) as (F2 & S2 & _).
-  unfold zsh_script. rewrite E2. eexists; split; [reflexivity|].
+  unfold ZshModel.zsh_script. rewrite E2. eexists; split; [reflexivity|].
   rewrite S1, S2, F1, F2. rewrite <- (zpskel_perase p1), <- (zpskel_perase p2), X2.
   split; [reflexivity|].
   rewrite <- (zrun_perase p1), X2, zrun_perase, R2 in R1. inversion R1. reflexivity.
@@ -1030,50 +1098,6 @@ Theorem zsh_adversarial_innocuous c d s1 :
     skeleton (events sh_step ZB s1) = skeleton (events sh_step ZB s2) /\
     final sh_step ZB s1 = final sh_step ZB s2.
 Proof. intros Ht H. apply (zsh_text_invariance c d (innocuous_desc d) s1 Ht); [symmetry; apply erase_innocuous|exact H]. Qed.
-
-(** ---- non-vacuity and the class boundary ---- *)
-Definition zl_adv_text : bytes := lit "it's a ""$(rm -rf /)"" `x` [y]: \ end".
-Definition zl_adv : cdesc :=
-  mkCd (Some zl_adv_text) false [mkAd (Some zl_adv_text) false []]
-       [mkCd (Some zl_adv_text) false [mkAd (Some zl_adv_text) false []]
-             [mkCd None false [mkAd (Some zl_adv_text) false [Some zl_adv_text; None; Some zl_adv_text]; mkAd (Some zl_adv_text) false []] []];
-        mkCd (Some zl_adv_text) false [mkAd None false [Some zl_adv_text]; mkAd (Some zl_adv_text) false []] []].
-Definition zl_inn : cdesc := innocuous_desc zl_adv.
-
-Example zsh_text_invariance_hyps :
-  ztame_cmd zx_root = true /\ erase_desc zl_adv = erase_desc zl_inn /\ zl_adv <> zl_inn /\
-  exists s1 s2, zsh_script zx_root zl_adv = Some s1 /\ zsh_script zx_root zl_inn = Some s2 /\ s1 <> s2.
-Proof.
-  split; [reflexivity|]. split; [reflexivity|]. split; [discriminate|].
-  destruct (zsh_script zx_root zl_adv) as [s1|] eqn:E1; [|vm_compute in E1; discriminate].
-  destruct (zsh_script zx_root zl_inn) as [s2|] eqn:E2; [|vm_compute in E2; discriminate].
-  exists s1, s2. split; [reflexivity|]. split; [reflexivity|].
-  intros E. subst s2.
-  assert (Hb : match zsh_script zx_root zl_adv, zsh_script zx_root zl_inn with
-               | Some a, Some b => beq a b | _, _ => true end = false) by (vm_compute; reflexivity).
-  rewrite E1, E2, beq_refl in Hb. discriminate.
-Qed.
-
-(** class boundary: an option NAME with a single quote is written unescaped; it closes the quoted spec early and the help
-    after it is read outside the quotes, where a space separates words *)
-Definition zl_untame_arg : arg := mkArg (lit "o") None (Some (lit "a'b")) [] [] ASetTrue None None None false false false.
-Definition zl_untame_cmd : cmd := mkCmd (lit "p") [] [zl_untame_arg] [] (Some (lit "p")) false false sets0 sets0.
-Lemma zsh_untamed_name_refuted :
-  exists c d1 d2 s1 s2,
-    ztame_cmd c = false /\ erase_desc d1 = erase_desc d2 /\
-    zsh_script c d1 = Some s1 /\ zsh_script c d2 = Some s2 /\
-    skeleton (events sh_step ZB s1) <> skeleton (events sh_step ZB s2).
-Proof.
-  exists zl_untame_cmd, (mkCd None false [mkAd (Some (lit "x y")) false []] []),
-         (mkCd None false [mkAd (Some (lit "xy")) false []] []).
-  destruct (zsh_script zl_untame_cmd (mkCd None false [mkAd (Some (lit "x y")) false []] [])) as [s1|] eqn:E1;
-    [|vm_compute in E1; discriminate].
-  destruct (zsh_script zl_untame_cmd (mkCd None false [mkAd (Some (lit "xy")) false []] [])) as [s2|] eqn:E2;
-    [|vm_compute in E2; discriminate].
-  exists s1, s2. split; [reflexivity|]. split; [reflexivity|]. split; [reflexivity|]. split; [reflexivity|].
-  vm_compute in E1. vm_compute in E2. apply Some_inj in E1. apply Some_inj in E2. subst s1 s2.
-  vm_compute. discriminate.
-Qed.
 
 (** ---- level 2: the payload of a quoted spec, read by the lexer of [_arguments] / [_describe] ---- *)
 (** [zrun2] threads BOTH lexers through the pieces of one shell word list: [sh_step] over the bytes, [zspec_step] over
@@ -1402,23 +1426,25 @@ Lemma tame_multiple a : tame (multiple_of a) = true.
 Proof. unfold multiple_of. destruct (a_action a); reflexivity. Qed.
 
 (** the head of an option / flag spec: [*], the dashes, the name, ([+] or [=]), the opening bracket *)
-Lemma spec_head_pres m x y : tame m = true -> tame x = true -> tame y = true ->
-  nosq ([] ++ m ++ x ++ y ++ [91]) = true /\ pres2 is_pre slot_ok ([] ++ m ++ x ++ y ++ [91]).
+Lemma spec_head_pres cf m x y : tame cf = true -> tame m = true -> tame x = true -> tame y = true ->
+  nosq (cf ++ m ++ x ++ y ++ [91]) = true /\ pres2 is_pre slot_ok (cf ++ m ++ x ++ y ++ [91]).
 Proof.
-  intros Hm Hx Hy. split.
-  - cbn [app]. rewrite !nosq_app, (tame_nosq _ Hm), (tame_nosq _ Hx), (tame_nosq _ Hy). reflexivity.
-  - cbn [app]. apply (pres2_app is_pre nob slot_ok).
-    { intros s Hs. apply (pres2_tame_nob m Hm). destruct s; try discriminate; reflexivity. }
+  intros Hcf Hm Hx Hy. split.
+  - rewrite !nosq_app, (tame_nosq _ Hcf), (tame_nosq _ Hm), (tame_nosq _ Hx), (tame_nosq _ Hy). reflexivity.
+  - apply (pres2_app is_pre nob slot_ok).
+    { intros s Hs. apply (pres2_tame_nob cf Hcf). destruct s; try discriminate; reflexivity. }
+    apply (pres2_app nob nob slot_ok); [apply pres2_tame_nob; exact Hm|].
     apply (pres2_app nob nob slot_ok); [apply pres2_tame_nob; exact Hx|].
     apply (pres2_app nob nob slot_ok); [apply pres2_tame_nob; exact Hy|lit_pres2].
 Qed.
 
 Lemma run2_opt_short_line c g p s st :
+  tame (arg_conflicts c (fst p) g) = true ->
   tame_arg (fst p) = true -> tame s = true -> zbare st = true ->
   exists s2, zrun2 st ZsPre (opt_short_line c g p s) = Some (ZBS, s2).
 Proof.
-  intros Ht Hs Hst. unfold opt_short_line. rewrite arg_conflicts_nil.
-  destruct (spec_head_pres (multiple_of (fst p)) (lit "-") (s ++ lit "+") (tame_multiple _) eq_refl) as [Hn Hp].
+  intros Hcf Ht Hs Hst. unfold ZshModel.opt_short_line.
+  destruct (spec_head_pres (arg_conflicts c (fst p) g) (multiple_of (fst p)) (lit "-") (s ++ lit "+") Hcf (tame_multiple _) eq_refl) as [Hn Hp].
   { rewrite tame_app, Hs. reflexivity. }
   rewrite <- !app_assoc in Hn, Hp.
   assert (R : run2_to slot_ok is_field ([Zh (text_or_default (ad_help (snd p))); Zx (lit "]")] ++ opt_vc p)).
@@ -1429,11 +1455,12 @@ Proof.
   exists s2. apply (zrun2_line _ _ st ZsPre s2 Hst Hn R2).
 Qed.
 Lemma run2_opt_long_line c g p s st :
+  tame (arg_conflicts c (fst p) g) = true ->
   tame_arg (fst p) = true -> tame s = true -> zbare st = true ->
   exists s2, zrun2 st ZsPre (opt_long_line c g p s) = Some (ZBS, s2).
 Proof.
-  intros Ht Hs Hst. unfold opt_long_line. rewrite arg_conflicts_nil.
-  destruct (spec_head_pres (multiple_of (fst p)) (lit "--") (s ++ lit "=") (tame_multiple _) eq_refl) as [Hn Hp].
+  intros Hcf Ht Hs Hst. unfold ZshModel.opt_long_line.
+  destruct (spec_head_pres (arg_conflicts c (fst p) g) (multiple_of (fst p)) (lit "--") (s ++ lit "=") Hcf (tame_multiple _) eq_refl) as [Hn Hp].
   { rewrite tame_app, Hs. reflexivity. }
   rewrite <- !app_assoc in Hn, Hp.
   assert (R : run2_to slot_ok is_field ([Zh (text_or_default (ad_help (snd p))); Zx (lit "]")] ++ opt_vc p)).
@@ -1445,11 +1472,12 @@ Proof.
 Qed.
 
 Lemma run2_zflag_line c g p dashes name st :
+  tame (arg_conflicts c (fst p) g) = true ->
   tame dashes = true -> tame name = true -> zbare st = true ->
   exists s2, zrun2 st ZsPre (zflag_line c g p dashes name) = Some (ZBS, s2).
 Proof.
-  intros Hd Hn Hst. unfold zflag_line. rewrite arg_conflicts_nil.
-  destruct (spec_head_pres (multiple_of (fst p)) dashes name (tame_multiple _) Hd Hn) as [Hq Hp].
+  intros Hcf Hd Hn Hst. unfold ZshModel.zflag_line.
+  destruct (spec_head_pres (arg_conflicts c (fst p) g) (multiple_of (fst p)) dashes name Hcf (tame_multiple _) Hd Hn) as [Hq Hp].
   destruct (proj2 run2_zh (text_or_default (ad_help (snd p))) _ (Hp ZsPre eq_refl)) as (s2 & R2 & _).
   eexists. apply (zrun2_line' _ [Zh (text_or_default (ad_help (snd p)))] (lit "]") st ZsPre s2 Hst Hq eq_refl R2).
 Qed.
@@ -1520,18 +1548,18 @@ Definition spec_line (c : cmd) (d : cdesc) (g : option cmd) (line : list zpiece)
 (** every spec line of a tame command runs at BOTH levels: each [escape_help] slot is met inside quotes and in the
     description or a field of the spec, each positional's help inside quotes and in a field *)
 Theorem zsh_spec_lines_run2 c d g line st :
-  ztame_cmd c = true -> spec_line c d g line -> zbare st = true ->
+  ztame_cmd c = true -> gtame g -> spec_line c d g line -> zbare st = true ->
   exists s2, zrun2 st ZsPre line = Some (ZBS, s2).
 Proof.
-  intros Ht Hl Hst. destruct Hl as [(p & Hp & Hl)|[Hl|(sc & sd & w & Hin & Hw & ->)]].
+  intros Ht Hg Hl Hst. destruct Hl as [(p & Hp & Hl)|[Hl|(sc & sd & w & Hin & Hw & ->)]].
   - pose proof (ztame_arg_tame _ (ztame_args c d p Ht Hp)) as Hta. destruct Hl as [Hl|Hl].
-    + unfold opt_lines in Hl. apply in_app_or in Hl. destruct Hl as [Hl|Hl].
+    + unfold ZshModel.opt_lines in Hl. apply in_app_or in Hl. destruct Hl as [Hl|Hl].
       * destruct (get_short_and_visible_aliases (fst p)) as [ss|] eqn:E; [|destruct Hl]. apply in_map_iff in Hl.
-        destruct Hl as (s & <- & Hs). apply run2_opt_short_line; [exact Hta|eapply tame_shorts; eassumption|exact Hst].
+        destruct Hl as (s & <- & Hs). apply run2_opt_short_line; [apply tame_arg_conflicts; assumption|exact Hta|eapply tame_shorts; eassumption|exact Hst].
       * destruct (get_long_and_visible_aliases (fst p)) as [ss|] eqn:E; [|destruct Hl]. apply in_map_iff in Hl.
-        destruct Hl as (s & <- & Hs). apply run2_opt_long_line; [exact Hta|eapply tame_longs; eassumption|exact Hst].
+        destruct Hl as (s & <- & Hs). apply run2_opt_long_line; [apply tame_arg_conflicts; assumption|exact Hta|eapply tame_longs; eassumption|exact Hst].
     + rewrite flag_lines_spellings in Hl. apply in_map_iff in Hl. destruct Hl as (x & <- & Hx).
-      destruct (tame_flag_spellings _ _ Hta Hx) as [H1 H2]. apply run2_zflag_line; assumption.
+      destruct (tame_flag_spellings _ _ Hta Hx) as [H1 H2]. apply run2_zflag_line; [apply tame_arg_conflicts; assumption|assumption|assumption|assumption].
   - destruct (positional_lines_cards _ _ _ _ Hl) as (card & p & Hp & Hc & ->). apply filter_In in Hp.
     pose proof (ztame_args c d p Ht (proj1 Hp)) as Hz. unfold ztame_arg in Hz. apply andb_true_iff in Hz.
     apply run2_positional_line; tauto.
@@ -1541,11 +1569,11 @@ Qed.
 (** level-2 invariance: a spec line and any line with the same fixed text (the line the generator writes for other
     texts) have the same [_arguments]-level token skeleton and end in the same level-2 state *)
 Theorem zsh_spec_line_level2 c d g line line' st :
-  ztame_cmd c = true -> spec_line c d g line -> zbare st = true -> map zperase line = map zperase line' ->
+  ztame_cmd c = true -> gtame g -> spec_line c d g line -> zbare st = true -> map zperase line = map zperase line' ->
   skeleton (events zspec_step ZsPre (payload line st)) = skeleton (events zspec_step ZsPre (payload line' st)) /\
   final zspec_step ZsPre (payload line st) = final zspec_step ZsPre (payload line' st).
 Proof.
-  intros Ht Hl Hst E. destruct (zsh_spec_lines_run2 c d g line st Ht Hl Hst) as (s2 & R).
+  intros Ht Hg Hl Hst E. destruct (zsh_spec_lines_run2 c d g line st Ht Hg Hl Hst) as (s2 & R).
   exact (level2_invariance line line' st ZsPre _ R E).
 Qed.
 
@@ -1565,3 +1593,49 @@ Qed.
 Lemma zsh_tooltip_dquote_boundary :
   zsh_escape_help [34] = [34] /\ zsh_l1 [34] = [34] /\ final sh_step ZDQ [34] = ZW.
 Proof. repeat split. Qed.
+End WithBlacklist.
+
+(** ---- non-vacuity and the class boundary ---- *)
+Definition zl_adv_text : bytes := lit "it's a ""$(rm -rf /)"" `x` [y]: \ end".
+Definition zl_adv : cdesc :=
+  mkCd (Some zl_adv_text) false [mkAd (Some zl_adv_text) false []]
+       [mkCd (Some zl_adv_text) false [mkAd (Some zl_adv_text) false []]
+             [mkCd None false [mkAd (Some zl_adv_text) false [Some zl_adv_text; None; Some zl_adv_text]; mkAd (Some zl_adv_text) false []] []];
+        mkCd (Some zl_adv_text) false [mkAd None false [Some zl_adv_text]; mkAd (Some zl_adv_text) false []] []].
+Definition zl_inn : cdesc := innocuous_desc zl_adv.
+
+Example zsh_text_invariance_hyps :
+  ztame_cmd zx_root = true /\ erase_desc zl_adv = erase_desc zl_inn /\ zl_adv <> zl_inn /\
+  exists s1 s2, zsh_script bl0 zx_root zl_adv = Some s1 /\ zsh_script bl0 zx_root zl_inn = Some s2 /\ s1 <> s2.
+Proof.
+  split; [reflexivity|]. split; [reflexivity|]. split; [discriminate|].
+  destruct (zsh_script bl0 zx_root zl_adv) as [s1|] eqn:E1; [|vm_compute in E1; discriminate].
+  destruct (zsh_script bl0 zx_root zl_inn) as [s2|] eqn:E2; [|vm_compute in E2; discriminate].
+  exists s1, s2. split; [reflexivity|]. split; [reflexivity|].
+  intros E. subst s2.
+  assert (Hb : match zsh_script bl0 zx_root zl_adv, zsh_script bl0 zx_root zl_inn with
+               | Some a, Some b => beq a b | _, _ => true end = false) by (vm_compute; reflexivity).
+  rewrite E1, E2, beq_refl in Hb. discriminate.
+Qed.
+
+(** class boundary: an option NAME with a single quote is written unescaped; it closes the quoted spec early and the help
+    after it is read outside the quotes, where a space separates words *)
+Definition zl_untame_arg : arg := mkArg (lit "o") None (Some (lit "a'b")) [] [] ASetTrue None None None false false false.
+Definition zl_untame_cmd : cmd := mkCmd (lit "p") [] [zl_untame_arg] [] (Some (lit "p")) false false sets0 sets0.
+Lemma zsh_untamed_name_refuted :
+  exists c d1 d2 s1 s2,
+    ztame_cmd c = false /\ erase_desc d1 = erase_desc d2 /\
+    zsh_script bl0 c d1 = Some s1 /\ zsh_script bl0 c d2 = Some s2 /\
+    skeleton (events sh_step ZB s1) <> skeleton (events sh_step ZB s2).
+Proof.
+  exists zl_untame_cmd, (mkCd None false [mkAd (Some (lit "x y")) false []] []),
+         (mkCd None false [mkAd (Some (lit "xy")) false []] []).
+  destruct (zsh_script bl0 zl_untame_cmd (mkCd None false [mkAd (Some (lit "x y")) false []] [])) as [s1|] eqn:E1;
+    [|vm_compute in E1; discriminate].
+  destruct (zsh_script bl0 zl_untame_cmd (mkCd None false [mkAd (Some (lit "xy")) false []] [])) as [s2|] eqn:E2;
+    [|vm_compute in E2; discriminate].
+  exists s1, s2. split; [reflexivity|]. split; [reflexivity|]. split; [reflexivity|]. split; [reflexivity|].
+  vm_compute in E1. vm_compute in E2. apply Some_inj in E1. apply Some_inj in E2. subst s1 s2.
+  vm_compute. discriminate.
+Qed.
+
